@@ -1,0 +1,13 @@
+//! Verification instrumentation, only compiled with the `verif-hooks` feature.
+
+use std::sync::atomic::{AtomicU64, Ordering};
+
+/// Number of selections visited by the pre-execution checks (validation
+/// visitors, recursion depth and directive limits, field conflict search).
+pub static WORK: AtomicU64 = AtomicU64::new(0);
+
+/// Count one unit of checking work.
+#[inline]
+pub fn work() {
+    WORK.fetch_add(1, Ordering::Relaxed);
+}
